@@ -6,10 +6,10 @@ use crate::sim::{observe_all, Live};
 use crate::trace::{Event, Trace};
 use crate::sim::{catch_avt, thread_cpu_ns};
 
-/// CPU-time budget of one `Vt::resize`: a fixed allowance plus a per-cell allowance about twenty
+/// CPU-time budget of one `Vt::resize`: a fixed allowance plus a per-cell allowance about fifty
 /// times the measured cost of the (linear) re-wrap, so that only super-linear behaviour trips it.
-const RESIZE_FIXED_NS: u64 = 150_000_000;
-const RESIZE_NS_PER_CELL: u64 = 2_000;
+const RESIZE_FIXED_NS: u64 = 500_000_000;
+const RESIZE_NS_PER_CELL: u64 = 5_000;
 
 pub struct C01;
 
@@ -84,11 +84,32 @@ impl Check for C01 {
                 if work >= 100_000 {
                     st.bump("resize_cost_judged_100k_cells");
                 }
+                let mut resize_cpu = resize_cpu;
+                if resize_cpu > budget {
+                    // a single measurement can be inflated by the machine (page reclaim and other
+                    // kernel work is charged to the thread): repeat the same resize on fresh
+                    // terminals brought to the same state and judge the fastest of four
+                    st.bump("resize_cost_remeasured");
+                    if let Event::Resize { cols, rows, .. } = e {
+                        for _ in 0..3 {
+                            let again = catch_avt(|| {
+                                let mut fork = crate::sim::replay_plain(&t.config, &t.events[..i]);
+                                let c0 = thread_cpu_ns();
+                                let ch = fork.resize(*cols, *rows);
+                                ch.scrollback.for_each(drop);
+                                thread_cpu_ns() - c0
+                            });
+                            if let Ok(ns) = again {
+                                resize_cpu = resize_cpu.min(ns);
+                            }
+                        }
+                    }
+                }
                 if resize_cpu > budget {
                     return Verdict::Violation {
                         rule: "resize-cost".into(),
                         detail: format!(
-                            "event #{} ({}): the resize used {} ms of CPU time; the terminal held {} cells before and {} after, for which the budget ({} ms + {} ns per cell, ~20x the measured linear cost) is {} ms - running time is not bounded by the work requested",
+                            "event #{} ({}): the resize used {} ms of CPU time; the terminal held {} cells before and {} after, for which the budget ({} ms + {} ns per cell, ~50x the measured linear cost; fastest of four measurements) is {} ms - running time is not bounded by the work requested",
                             i,
                             crate::trace::event_brief(e),
                             resize_cpu / 1_000_000,
@@ -136,7 +157,7 @@ impl Check for C01 {
     }
     fn meta(&self) -> Meta {
         Meta {
-            rule: "no panic, no hang (60 s watchdog), and the CPU time of each Vt::resize within a budget linear in the cells the terminal holds before and after (150 ms + 2 us per cell, ~20x the measured linear cost) - running time bounded by the work requested; chaos sessions (swarm profile of 17 token families incl. garbage / partial tokens, S5 damage, every cut policy, resizes and snapshots at any character position, every drain policy, sizes 1x1..132x50, resizes to and from very wide / very tall geometries (513..70000 in one dimension, bounded so that rows kept x new width <= 4M cells), limits None/0/1/2/5/9/10/11/20/100/10^6); a run is non-trivial if it fed >= 1 character and contained >= 1 environment event (resize, feed() loop, non-full drain, snapshot, observe); distinct = distinct final-screen digests among non-trivial runs",
+            rule: "no panic, no hang (60 s watchdog), and the CPU time of each Vt::resize within a budget linear in the cells the terminal holds before and after (500 ms + 5 us per cell, ~50x the measured linear cost; an excess is re-measured three times on fresh terminals and the fastest of the four counts) - running time bounded by the work requested; chaos sessions (swarm profile of 17 token families incl. garbage / partial tokens, S5 damage, every cut policy, resizes and snapshots at any character position, every drain policy, sizes 1x1..132x50, resizes to and from very wide / very tall geometries (513..70000 in one dimension, bounded so that rows kept x new width <= 4M cells), limits None/0/1/2/5/9/10/11/20/100/10^6); a run is non-trivial if it fed >= 1 character and contained >= 1 environment event (resize, feed() loop, non-full drain, snapshot, observe); distinct = distinct final-screen digests among non-trivial runs",
             assumptions: vec!["panics are observed through catch_unwind in a build with overflow-checks and debug-assertions on", "a hang is a run exceeding 60 s wall-clock (normal < 50 ms)", "the resize cost is measured as thread CPU time (CLOCK_THREAD_CPUTIME_ID), so descheduling on a loaded machine does not count", "allocation failure of legitimately huge requests and mem::forget(Changes) are out of scope"],
             real: vec!["avt::Vt (whole library)", "avt::parser::Parser (lock-step)", "avt::util::TextCollector"],
             simulated: vec!["App (token producer)", "Pipe (cuts, damage)", "Window (resizes)", "Snapshotter", "Consumer (drain policy)", "Observer (accessors)"],
